@@ -225,9 +225,22 @@ def contracts():
         r matches Ok(e) ==> e.name@ == self.name@ && e.url@ == self.url@ && e.tos_agreed == self.tos_agreed && e.nonce is None,
         // every rate limit the endpoint names must exist
         r is Ok ==> forall|k: int| 0 <= k < self.rate_limits@.len() ==> rl_exists(*cnf, #[trigger] self.rate_limits@[k]@), //@C14.rate_limit_reference_resolves_or_error,C09.every_limit_the_endpoint_names_is_attached_or_start_up_fails
+        // and the endpoint's limiter is built from exactly those limits: one entry for each name, with the number and period configured under that name
+        r matches Ok(e) ==> crate::endpoint::rl_raw(e.rl).len() == self.rate_limits@.len()
+            && forall|k: int| 0 <= k < self.rate_limits@.len() ==> attached(*cnf, self.rate_limits@[k]@, #[trigger] crate::endpoint::rl_raw(e.rl)[k]), //@C09.every_limit_the_endpoint_names_is_attached_or_start_up_fails,C14.every_limit_the_endpoint_names_is_attached
 """, loops={1: """
     invariant forall|k: int| 0 <= k < it.index@ ==> rl_exists(*cnf, #[trigger] self.rate_limits@[k]@), //@C14.rate_limit_reference_resolves_or_error,C09.every_limit_the_endpoint_names_is_attached_or_start_up_fails
+        limits@.len() == it.index@,
+        forall|k: int| 0 <= k < it.index@ ==> attached(*cnf, self.rate_limits@[k]@, #[trigger] crate::endpoint::raw_view(limits@)[k]), //@C09.every_limit_the_endpoint_names_is_attached_or_start_up_fails,C14.every_limit_the_endpoint_names_is_attached
 """}, at=[("loop_iter", None, 1, "it:"),
+          ("opt:before_stmt_re", r"(\w+)\.push\(\((\w+), (\w+)\)\)", 1, "let ghost lb__ = $1;"),
+          ("opt:after_stmt_re", r"(\w+)\.push\(\((\w+), (\w+)\)\)", 1, """
+            proof {
+                assert(crate::endpoint::raw_view($1@) =~= crate::endpoint::raw_view(lb__@).push(($2, $3@)));
+                assert forall|k: int| 0 <= k < it.index@ + 1 implies attached(*cnf, self.rate_limits@[k]@, #[trigger] crate::endpoint::raw_view($1@)[k]) by {
+                    if k < it.index@ { assert(crate::endpoint::raw_view($1@)[k] == crate::endpoint::raw_view(lb__@)[k]); }
+                }
+            }"""),
           ("before_stmt", "crate::endpoint::Endpoint::new(", 1, """
         proof {
             assert(strs(root_lst@) =~= strs_ref(root_certs@) + opt_strs(self.root_certificates)
@@ -346,6 +359,8 @@ pub proof fn documented_defaults()
     ensures
         crate::DEFAULT_HOOK_ALLOW_FAILURE == false, //@C10.a_hook_may_fail_only_when_allow_failure_says_so_by_default_it_may_not,C05.a_hook_may_fail_only_when_allow_failure_says_so_by_default_it_may_not,C07.a_hook_may_fail_only_when_allow_failure_says_so_by_default_it_may_not
         crate::DEFAULT_CERT_FILE_MODE == 0o644 && crate::DEFAULT_PK_FILE_MODE == 0o600, //@C13.default_modes_are_0644_and_0600
+        // acmed.toml(5), file_name_format: the key type is part of the default name (an RSA and an ECDSA certificate of one name do not share files)
+        crate::DEFAULT_CERT_FORMAT@ == "{{ name }}_{{ key_type }}.{{ file_type }}.{{ ext }}"@, //@C14.default_file_name_format_is_the_documented_one,C02.default_file_name_format_is_the_documented_one,C03.default_file_name_format_is_the_documented_one
         crate::DEFAULT_CERT_RENEW_DELAY == 30 * 24 * 60 * 60 && crate::DEFAULT_CERT_RANDOM_EARLY_RENEW == 0, //@C06.default_renew_delay_is_30_days_no_early_renewal,C14.default_renew_delay_is_30_days_no_early_renewal
 {}
 """)
@@ -383,9 +398,15 @@ pub proof fn documented_defaults()
     u.module("endpoint", "use crate::*;\nuse crate::config::strs;\nuse crate::acme_proto::structs::Directory;\nuse crate::acme_common::error::Error;\nuse std::time::{Duration, Instant};")
     u.take("acmed/src/endpoint.rs", "Endpoint", "endpoint")
     u.take("acmed/src/endpoint.rs", "RateLimit", "endpoint")
-    u.stub("acmed/src/endpoint.rs", "RateLimit::new", "endpoint", fns={"new": FnSpec(ret="r")})
+    u.raw("endpoint", """
+// what a limiter was built from (RateLimit::new is verified in unit ratelimit: every (number, period) it is given is enforced)
+pub uninterp spec fn rl_raw(rl: RateLimit) -> Seq<(usize, Seq<char>)>;
+pub open spec fn raw_view(s: Seq<(usize, String)>) -> Seq<(usize, Seq<char>)> { s.map_values(|t: (usize, String)| (t.0, t.1@)) }
+""")
+    u.stub("acmed/src/endpoint.rs", "RateLimit::new", "endpoint", fns={"new": FnSpec(ret="r", sig="    ensures r matches Ok(x) ==> rl_raw(x) == raw_view(raw_limits@),\n")})
     u.verify("acmed/src/endpoint.rs", "Endpoint::new", "endpoint", props=["C18"], fns={"new": FnSpec(ret="r", sig="""
     ensures r matches Ok(e) ==> strs(e.root_certificates@) =~= strs(root_certs@) && e.name@ == name@ && e.url@ == url@ && e.tos_agreed == tos_agreed && e.nonce is None, //@C18.endpoint_keeps_the_root_list
+        r matches Ok(e) ==> rl_raw(e.rl) == raw_view(limits@), //@C09.the_endpoint_limiter_is_built_from_the_limits_given
 """)})
     u.verify(C, "get_stdin", "config", props=["C10"], fns={"get_stdin": c.pop("get_stdin")})
     u.verify(C, "dispatch_global_env_vars", "config", props=["C10"], fns={"dispatch_global_env_vars": c.pop("dispatch_global_env_vars")})
@@ -669,6 +690,12 @@ broadcast use {crate::stdax::axiom_str_ext, crate::stdax2::axiom_to_string_strin
 impl Clone for Endpoint {
     #[verifier::external_body]
     fn clone(&self) -> (r: Self) ensures r == *self { unimplemented!() }
+}
+// the limit configured under a name: the first [[rate-limit]] entry of that name, its number and its period
+pub open spec fn attached(cnf: Config, name: Seq<char>, t: (usize, Seq<char>)) -> bool {
+    exists|i: int| 0 <= i < cnf.rate_limit@.len() && #[trigger] cnf.rate_limit@[i].name@ == name
+        && t.0 == cnf.rate_limit@[i].number && t.1 == cnf.rate_limit@[i].period@
+        && forall|j: int| 0 <= j < i ==> cnf.rate_limit@[j].name@ != name
 }
 pub open spec fn rl_exists(cnf: Config, name: Seq<char>) -> bool {
     exists|i: int| 0 <= i < cnf.rate_limit@.len() && cnf.rate_limit@[i].name@ == name
